@@ -176,13 +176,14 @@ def impl(case):
         same_obj = all(objs[f] == objs["json"] for f in FMTS)
         ref_ok = _reference_agrees(case["d"], pd) and _reference_agrees(case["t"], pt)
         objs_differ = [f for f in FMTS if not _strict_eq(objs[f], case["d"])] if ref_ok else []
-        cost, eq, third, exit_ = {}, {}, {}, {}
+        cost, eq, third, exit_, pred = {}, {}, {}, {}, {}
         for a in FMTS:
             for b in FMTS:
                 k = f"{a}->{b}"
                 try:
                     A, B = load(pd, a), load(pd, b)
                     eq[k] = bool(A == B)
+                    pred[k] = int(max(A.total_size, B.total_size)) + 1      # what a wholesale Replace costs (D10)
                     cost[k] = int(A.diff(B).edited_cost())
                 except Exception as e:
                     cost[k] = "EXC:" + type(e).__name__
@@ -201,7 +202,7 @@ def impl(case):
                 rc2 = r2["rc"] if not r2["exc"] else "EXC:" + r2["exc"]
                 if rc2 != exit_[k]:
                     exit_[k] = f"{exit_[k]} by extension but {rc2} with --from-{a} --to-{b}"
-        return {"same_obj": same_obj, "ref_ok": ref_ok, "objs_differ": objs_differ, "cost": cost, "eq": eq, "third": third, "exit": exit_}
+        return {"same_obj": same_obj, "ref_ok": ref_ok, "objs_differ": objs_differ, "cost": cost, "pred": pred, "eq": eq, "third": third, "exit": exit_}
     finally:
         shutil.rmtree(dirpath, ignore_errors=True)
 
@@ -216,13 +217,20 @@ def monitor(case, obs):
     for f in obs.get("objs_differ", []):
         hits.append({"prop": "C09", "key": f"loaded-data-differs:{f}", "what": f"the {f} loader's tree holds other data (to_obj()) than the file, which json / json5 / yaml / plistlib all read back as the original datum"})
     for k, c in obs["cost"].items():
-        if c != 0:
-            hits.append({"prop": "C09", "key": f"nonzero:{k}", "what": f"same data loaded as {k}: cost {c}"})
-        if obs["exit"][k] != 0:
-            hits.append({"prop": "C09", "key": f"exit:{k}", "what": f"same data as files {k}: command exits with {obs['exit'][k]}"})
+        if not isinstance(c, int):
+            hits.append({"prop": "C09", "key": f"exception:{k}:{c}", "what": f"same data loaded as {k}: comparing raises {c}"})
+        elif c != 0:
+            kind = "nonzero" if c == obs.get("pred", {}).get(k, c) else "nonzero-not-a-replace"
+            hits.append({"prop": "C09", "key": f"{kind}:{k}", "what": f"same data loaded as {k}: cost {c}"})
+        if obs["exit"][k] == 1:
+            hits.append({"prop": "C09", "key": f"exit:{k}", "what": f"same data as files {k}: command exits with 1"})
+        elif obs["exit"][k] != 0:
+            hits.append({"prop": "C09", "key": f"bad-exit:{k}:{obs['exit'][k]}", "what": f"same data as files {k}: command ends with {obs['exit'][k]}"})
     ref = obs["third"]["json->json"]
     for k, c in obs["third"].items():
-        if c != ref:
+        if not isinstance(c, int):
+            hits.append({"prop": "C09", "key": f"exception-third:{k}:{c}", "what": f"diff against a third document raises {c} when loaded as {k}"})
+        elif c != ref:
             hits.append({"prop": "C09", "key": f"third-cost-differs:{k}", "what": f"diff against a third document costs {c} when loaded as {k} but {ref} as json->json"})
     return hits
 
